@@ -222,11 +222,14 @@ func (b *Batch) Commit() error {
 	logRecord.Type = datafile.LogRecordBatchFinished
 	// 完成标识记录必须携带批次 ID, 重启加载索引时据此应用该批次的暂存记录
 	logRecord.BatchID = uint64(b.batchID)
-	_, err = b.db.activeFile.WriteLogRecord(logRecord, b.db.logRecordHeader)
+	finPos, err := b.db.activeFile.WriteLogRecord(logRecord, b.db.logRecordHeader)
 	b.db.putRecordToPool(logRecord)
 	if err != nil {
 		return err
 	}
+	// 完成标识记录占用磁盘空间, 但始终属于可回收的无效数据
+	b.db.totalSize += int64(finPos.Size)
+	b.db.reclaimSize += int64(finPos.Size)
 	// 完成标识记录同样需要持久化, 否则断电后整个批次无法恢复
 	if b.options.Sync {
 		if err := b.db.activeFile.Sync(); err != nil {
@@ -313,6 +316,8 @@ func (b *Batch) flushStaged() error {
 
 	// 追加操作全部完成后, 更新索引
 	for i, record := range b.staged {
+		// 维护总数据量, 与 appendLogRecord 保持一致
+		b.db.totalSize += int64(dataPos[i].Size)
 		var pos *datafile.DataPos
 		if record.Type == datafile.LogRecordDeleted {
 			pos = b.db.index.Delete(record.Key)
